@@ -53,6 +53,10 @@ type shared struct {
 	parsedAz  biscuit.ParsedAuthorizer
 	parsedBlk biscuit.ParsedBlock
 	prs    parser.Parser
+	// the verifiers' configuration values, made once and used by every task: a key source and the
+	// evaluation limits (option values are part of what callers share when they share a token)
+	keys biscuit.PublickKeyByIDProjection
+	long biscuit.AuthorizerOption
 }
 
 // setup builds the shared values from the plan's first op; everything here
@@ -111,6 +115,11 @@ func setup(op *vm.Op) (*shared, error) {
 		}
 	}
 	s.tok = tok
+	other := ed25519.NewKeyFromSeed(seed2(seed)).Public().(ed25519.PublicKey)
+	s.keys = biscuit.WithRootPublicKeys(map[uint32]ed25519.PublicKey{7: other, 9: other}, &s.pub)
+	if op.Has("shared-options") {
+		s.long = biscuit.WithWorldOptions(datalog.WithMaxDuration(time.Hour))
+	}
 	if s.parsedAz, err = s.prs.Authorizer(op.Data, nil); err != nil {
 		return nil, fmt.Errorf("shared authorizer source: %w", err)
 	}
@@ -118,6 +127,12 @@ func setup(op *vm.Op) (*shared, error) {
 		return nil, fmt.Errorf("shared block source: %w", err)
 	}
 	return s, nil
+}
+
+func seed2(seed []byte) []byte {
+	b := append([]byte{}, seed...)
+	b[3] ^= 0x5c
+	return b
 }
 
 func errc(err error) string {
@@ -134,8 +149,18 @@ func do(s *shared, op *vm.Op) (out string) {
 			out = fmt.Sprintf("PANIC %v", r)
 		}
 	}()
-	long := biscuit.WithWorldOptions(datalog.WithMaxDuration(time.Hour))
+	long := s.long
+	if long == nil {
+		long = biscuit.WithWorldOptions(datalog.WithMaxDuration(time.Hour))
+	}
 	switch op.K {
+	case "authorizerForKeys":
+		a, err := s.tok.AuthorizerFor(s.keys, long)
+		if err != nil {
+			return errc(err)
+		}
+		a.AddAuthorizer(s.parsedAz)
+		return errc(a.Authorize())
 	case "authorizerFor":
 		_, err := s.tok.AuthorizerFor(biscuit.WithSingularRootPublicKey(s.pub), long)
 		return errc(err)
